@@ -17,7 +17,7 @@ theorem algLines_cons (rf : List Str) (db : DB) (cat : Str) (n : Str) (ns : List
   algLines_append rf db cat [n] ns hk dh
 
 /-- is a line printed for this name? (`len(alg_name.strip()) == 0` on the normalised name) -/
-def printed (cat n : Str) : Bool := !(Text.strip (gssNormalize cat n)).isEmpty
+def printed (cat n : Str) : Bool := !(Text.stripU (gssNormalize cat n)).isEmpty
 
 theorem algTexts_isSome (db : DB) (cat n : Str) : (algTexts db cat n).isSome = printed cat n := by
   unfold algTexts printed
